@@ -22,13 +22,18 @@ type C08Case struct {
 	// array, where the generator has put a text into that column: the query fails on that inner array alone, so
 	// the nested query (and the mix=> query) must fail too - never return the other inner arrays' results
 	FailWhere string `json:"fail_where,omitempty"`
+	// Twin: how one leaf array of the document was derived from another leaf of the same document ("" = not at
+	// all): "duplicate" (same content), "look-alike" (some values replaced by the text that prints like them:
+	// 7 -> "7", true -> "true", null -> "<nil>") or "merged-key" (a text column swallows the next key: {a:"x", b:1}
+	// -> {a:"x b:1"}); label only, the document holds the derived leaf
+	Twin string `json:"twin,omitempty"`
 }
 
 func init() {
 	Register(&Prop{
 		ID:    "C08",
 		Title: "A multi-dimensional FROM applies the query inside every inner array",
-		Rule: "rapid draws a document key holding arrays of arrays of objects (depth 2-3, ragged, empty inner arrays, a fifth of the documents with levels of 4-13 inner arrays), a select list (columns, " +
+		Rule: "rapid draws a document key holding arrays of arrays of objects (depth 2-3, ragged, empty inner arrays, a fifth of the documents with levels of 4-13 inner arrays; in a third of the documents one leaf array is derived from another leaf: an identical copy, or a look-alike whose values are of another kind but print the same - 7 / '7', true / 'true', null / '<nil>', a text that swallows the next key), a select list (columns, " +
 			"simple expressions, optional *), an optional WHERE and, in half of the cases, a back reference to siblings of the source in the enclosing " +
 			"document (`<-.lim` in a comparison, IN / [NOT] EXISTS / select-item subqueries over `<-allow`); oracle: the result has the same nesting and each leaf array's result equals the " +
 			"execution of the same query on the document with that leaf in place of nn; FROM `mix=>nn` equals the concatenation of the leaf results in order. Non-trivial: >=2 " +
@@ -79,6 +84,7 @@ func genC08(t *rapid.T) any {
 	}
 	pt.Obj = "" // no object column in nested rows
 	c := &C08Case{Doc: map[string]any{"nn": gen(rapid.IntRange(2, 3).Draw(t, "depth"), "nn")}}
+	c.Twin = genC08Twin(t, c.Doc, pt)
 	c.Items = genSelectItems(t, pt, 3, 2, "sel")
 	c.Star = rapid.SampledFrom([]int{0, 0, 1}).Draw(t, "star")
 	if c.Star != 0 {
@@ -146,6 +152,128 @@ func genC08(t *rapid.T) any {
 		c.BackItem = fmt.Sprintf("(SELECT x FROM `<-allow` WHERE x >= %s) AS bs", sq.NumLit(rapid.SampledFrom(pool).Draw(t, "backc").(float64)))
 	}
 	return c
+}
+
+// genC08Twin derives, in a third of the documents, one leaf array from another leaf of the same document and puts
+// it in the place of a leaf or next to one: an identical copy, or a copy in which values are replaced by values of
+// another kind that read the same when printed. Every inner array still has to yield what it yields on its own.
+func genC08Twin(t *rapid.T, doc map[string]any, pt *ProjTable) string {
+	if rapid.IntRange(0, 2).Draw(t, "twin") != 0 {
+		return ""
+	}
+	nn := doc["nn"].([]any)
+	// the arrays whose elements are leaves, and the non-empty leaves
+	type slot struct {
+		parent *[]any
+		i      int
+	}
+	var parents []*[]any
+	var leaves, sources []slot
+	depth3 := false
+	for _, x := range nn {
+		if a, ok := x.([]any); ok && !isLeaf(a) {
+			depth3 = true
+		}
+	}
+	collect := func(p *[]any) {
+		parents = append(parents, p)
+		for i, x := range *p {
+			leaves = append(leaves, slot{p, i})
+			if len(x.([]any)) > 0 {
+				sources = append(sources, slot{p, i})
+			}
+		}
+	}
+	var holders []slot // depth 3: where the parents hang in nn
+	if depth3 {
+		for i, x := range nn {
+			a := x.([]any)
+			if len(a) > 0 && !isLeaf(a) {
+				p := new([]any)
+				*p = a
+				holders = append(holders, slot{p, i})
+				collect(p)
+			}
+		}
+	} else {
+		collect(&nn)
+	}
+	if len(sources) == 0 {
+		return ""
+	}
+	src := sources[rapid.IntRange(0, len(sources)-1).Draw(t, "twin.src")]
+	twin := val.Copy((*src.parent)[src.i]).([]any)
+	kind := rapid.SampledFrom([]string{"duplicate", "look-alike", "look-alike", "look-alike", "merged-key"}).Draw(t, "twin.kind")
+	switch kind {
+	case "look-alike":
+		// one to three columns change their kind, in every row or in some rows only
+		cols := map[string]bool{}
+		for i, n := 0, rapid.IntRange(1, 3).Draw(t, "twin.ncols"); i < n; i++ {
+			col := pt.Tb.Cols[rapid.IntRange(0, len(pt.Tb.Cols)-1).Draw(t, fmt.Sprintf("twin.col%d", i))]
+			if col.Kind != "str" {
+				cols[col.Name] = true
+			}
+		}
+		allRows := rapid.Bool().Draw(t, "twin.allrows")
+		changed := false
+		for ri, r := range twin {
+			row := r.(map[string]any)
+			if !allRows && ri > 0 && rapid.Bool().Draw(t, fmt.Sprintf("twin.keep%d", ri)) {
+				continue
+			}
+			for name := range cols {
+				if v, ok := row[name]; ok {
+					if _, isText := v.(string); !isText {
+						row[name] = fmt.Sprint(v)
+						changed = true
+					}
+				}
+			}
+		}
+		if !changed {
+			kind = "duplicate"
+		}
+	case "merged-key":
+		// the text column takes the key that follows it in the printed form into its own text
+		str := pt.Strs[0]
+		next := ""
+		for _, col := range pt.Tb.Cols {
+			if col.Name > str && (next == "" || col.Name < next) {
+				next = col.Name
+			}
+		}
+		if next == "" {
+			kind = "duplicate"
+			break
+		}
+		for _, r := range twin {
+			row := r.(map[string]any)
+			if v, ok := row[next]; ok {
+				row[str] = fmt.Sprintf("%v %s:%v", row[str], next, v)
+				delete(row, next)
+			}
+		}
+	}
+	// in the place of another leaf, or as a further inner array anywhere among the leaves
+	if len(leaves) > 1 && rapid.Bool().Draw(t, "twin.replace") {
+		j := rapid.IntRange(0, len(leaves)-2).Draw(t, "twin.at")
+		if leaves[j] == src {
+			j = len(leaves) - 1
+		}
+		(*leaves[j].parent)[leaves[j].i] = twin
+	} else {
+		p := parents[rapid.IntRange(0, len(parents)-1).Draw(t, "twin.parent")]
+		at := rapid.IntRange(0, len(*p)).Draw(t, "twin.pos")
+		grown := append([]any{}, (*p)[:at]...)
+		grown = append(grown, any(twin))
+		grown = append(grown, (*p)[at:]...)
+		*p = grown
+	}
+	for _, h := range holders {
+		nn[h.i] = *h.parent
+	}
+	doc["nn"] = nn
+	return kind
 }
 
 func (c *C08Case) sql(from string) string {
@@ -298,6 +426,9 @@ func checkC08(c *C08Case) Result {
 	}
 	if c.BackItem != "" {
 		res.Labels = append(res.Labels, "back-reference-in-select-item")
+	}
+	if c.Twin != "" {
+		res.Labels = append(res.Labels, c.Twin+"-leaf")
 	}
 	return res
 }
